@@ -224,6 +224,8 @@ class Interp(object):
                 return -v
             if isinstance(e.op, ast.USub) and self.arith:
                 return -v
+            if isinstance(e.op, ast.Invert) and self.arith and isinstance(v, int):
+                return ~v
             raise Refuse(e, "unary operator")
         if isinstance(e, ast.BoolOp):
             if isinstance(e.op, ast.And):
